@@ -28,6 +28,7 @@ func NewScheduler(r runner.Runner) *Scheduler {
 		pause:      50 * time.Millisecond,
 		taskRunner: r,
 	}
+	s.verifInit()
 
 	return s
 }
